@@ -64,6 +64,19 @@ func fixtures() []fixture {
 	}
 }
 
+// readMeta: the .dud of dir as Model/Init.meta (index, config.yaml, .gitignore, rclone.conf, cache/)
+func readMeta(dir string) string {
+	opt := func(name string) string {
+		b, err := os.ReadFile(filepath.Join(dir, ".dud", name))
+		if err != nil {
+			return "None"
+		}
+		return "(Some (" + cx(b) + "))"
+	}
+	st, err := os.Stat(filepath.Join(dir, ".dud", "cache"))
+	return fmt.Sprintf("Model.Init.mkMeta %s %s %s %s %s", opt("index"), opt("config.yaml"), opt(".gitignore"), opt("rclone.conf"), cbool(err == nil && st.IsDir()))
+}
+
 func hashConfig(p *Project) string {
 	h := sha256.New()
 	for _, f := range []string{"config.yaml", "rclone.conf", ".gitignore", "index"} {
@@ -176,15 +189,17 @@ func runIdem(o *opts) {
 			fh.Close()
 			pre := p.observe()
 			hc := hashConfig(p)
+			mpre := readMeta(filepath.Join(p.Root, cwd))
 			res := p.dud(cwd, "init")
 			post := p.observe()
+			mpost := readMeta(filepath.Join(p.Root, cwd))
 			changed := hashConfig(p) != hc
 			// the nested project created by init in a sub-directory is not part of the parent's state
 			if cwd != "" {
 				post.Root.get("sub").set(".dud", nil)
 			}
 			id := len(icases) + 1
-			icases = append(icases, fmt.Sprintf("mkIC %d\n (%s)\n %s\n (%s) %s", id, pre.coq(), cbool(res.Exit == 0), post.coq(), cbool(changed)))
+			icases = append(icases, fmt.Sprintf("mkIC %d\n (%s)\n %s\n (%s) %s\n (%s)\n (%s)", id, pre.coq(), cbool(res.Exit == 0), post.coq(), cbool(changed), mpre, mpost))
 			s.CaseIndex[fmt.Sprintf("init-%d", id)] = map[string]interface{}{"cmd": "dud init", "cwd": cwd, "exit": res.Exit, "fixture": f.name}
 			s.count("init cwd:" + cwd)
 			distinct["init"+cwd+f.name] = true
